@@ -205,6 +205,7 @@ func genC15(cfg Config, ws *WorldSet, i, perWorld int) C15Case {
 				steps = append(steps, Step{Op: "symlink", Path: iv.OutPath, Data: []byte("{W}/nowhere/generated.go")})
 			} else {
 				steps = append(steps, Step{Op: "symlink", Path: iv.OutPath, Data: []byte("{W}/outside/generated_elsewhere.go")})
+				iv.LinkTarget = "{W}/outside/generated_elsewhere.go"
 				plan.Faults = append(plan.Faults, sim.Fault{Op: "OUTPUT-OPEN", Path: iv.OutPath, Kind: "open_err", Errno: sim.Pick(r, []string{"EACCES", "EROFS", "ENOSPC"})})
 			}
 		case "timers-fire-early":
